@@ -136,9 +136,32 @@ enum ReadOutcome {
     Read { header: ReportHeader, groups: Vec<FileGroup<fclones::Path>>, end: Result<(), String> },
 }
 
+/// A stream that delivers `data` and then fails with EIO instead of signalling end of file (a report
+/// cut off by a failing disk, network file system or pipe rather than by a short file).
+struct FailingReader {
+    data: Vec<u8>,
+    pos: usize,
+}
+
+impl std::io::Read for FailingReader {
+    fn read(&mut self, buf: &mut [u8]) -> std::io::Result<usize> {
+        if self.pos >= self.data.len() {
+            return Err(std::io::Error::from_raw_os_error(5));
+        }
+        let n = buf.len().min(self.data.len() - self.pos);
+        buf[..n].copy_from_slice(&self.data[self.pos..self.pos + n]);
+        self.pos += n;
+        Ok(n)
+    }
+}
+
 fn read(bytes: Vec<u8>) -> Result<ReadOutcome, ()> {
+    read_from(std::io::Cursor::new(bytes))
+}
+
+fn read_from(stream: impl std::io::Read + Send + 'static) -> Result<ReadOutcome, ()> {
     catch_unwind(AssertUnwindSafe(move || {
-        let mut r = match open_report(std::io::Cursor::new(bytes)) {
+        let mut r = match open_report(stream) {
             Ok(r) => r,
             Err(e) => return ReadOutcome::HeaderErr(e.to_string()),
         };
@@ -246,15 +269,18 @@ pub fn run_case(c: &C10Case, _n: u64) -> Verdict {
             v.dedup();
             v
         };
-        for cut in cut_positions {
+        for (cut, by_error) in cut_positions.iter().flat_map(|c| [(*c, false), (*c, true)]) {
             cuts_checked += 1;
             let prefix = bytes[..cut].to_vec();
-            match read(prefix) {
-                Err(()) => return fail("reader-panics-on-truncated-report", format!("cut at {} of {}\n{}", cut, bytes.len(), shown())),
+            // the stream ends at the cut either with a plain end of file or with a read error (EIO)
+            let outcome = if by_error { read_from(FailingReader { data: prefix, pos: 0 }) } else { read(prefix) };
+            let how = if by_error { "stream fails with EIO" } else { "cut" };
+            match outcome {
+                Err(()) => return fail("reader-panics-on-truncated-report", format!("{} at {} of {}\n{}", how, cut, bytes.len(), shown())),
                 Ok(ReadOutcome::HeaderErr(_)) => {}
                 Ok(ReadOutcome::Read { groups, end, .. }) => {
                     if c.json {
-                        return fail("truncated-json-accepted", format!("cut at {} of {}", cut, bytes.len()));
+                        return fail("truncated-json-accepted", format!("{} at {} of {}", how, cut, bytes.len()));
                     }
                     // every group read must be an original group, complete before the cut
                     for (i, g) in groups.iter().enumerate() {
@@ -263,7 +289,8 @@ pub fn run_case(c: &C10Case, _n: u64) -> Verdict {
                             return fail(
                                 "truncated-report-yields-wrong-group",
                                 format!(
-                                    "cut at byte {} of {} (group ends at {:?}): reader yielded as group {}: {}\noriginal: {}",
+                                    "{} at byte {} of {} (group ends at {:?}): reader yielded as group {}: {}\noriginal: {}",
+                                    how,
                                     cut,
                                     bytes.len(),
                                     ends,
@@ -281,7 +308,7 @@ pub fn run_case(c: &C10Case, _n: u64) -> Verdict {
                         if !at_boundary {
                             return fail(
                                 "truncated-report-accepted",
-                                format!("cut at byte {} of {} lies inside group {} (boundaries {:?}) but the reader reported a clean end after {} groups", cut, bytes.len(), k, ends, k),
+                                format!("{} at byte {} of {} lies inside group {} (boundaries {:?}) but the reader reported a clean end after {} groups", how, cut, bytes.len(), k, ends, k),
                             );
                         }
                     }
